@@ -37,7 +37,13 @@ RULE = ('case = one random search-space description of gen/spaces.random_space '
         '(<= 3 top-level elements, nesting depth <= 3, <= max_points decision points, '
         'choices of k <= 3 of n <= 4 in all distinct/sorted modes, floats, custom '
         'points, unique names on about half of the points, pairwise distinct literal '
-        'values of five kinds on about half of the choices). Per case: `dnas` '
+        'values of five kinds on about half of the choices); half of the specs are '
+        'constructed by gen/spaces.build_reusing from library objects that belonged to '
+        'another spec before (candidates / elements taken from a one-of, many-of, '
+        'subchoice or space donor where they sat at other positions, as they are or '
+        'cloned / deep-copied / JSON-copied, ids of the donor read or not), the '
+        'reference decision-point map being derived from the description alone. '
+        'Per case: `dnas` '
         'reference members rebuilt from raw numbers are pushed through the views - '
         'to_numbers flat/nested, JSON compact/verbose/text/raw, to_dict over 3 key '
         'types x 5 value types x 3 multi-choice modes x include-inactive (all 90 views '
@@ -57,6 +63,7 @@ RULE = ('case = one random search-space description of gen/spaces.random_space '
         'Non-trivial = the space has a multi-choice or a conditional sub-space and at '
         'least one handed-out DNA was compared; distinct by description.')
 REQUIRED_COUNTERS = ['to_dict_content_checks', 'from_dict_roundtrips',
+                     'specs_built:reused-objects', 'reused_at_other_position',
                      'numbers_roundtrips', 'json_roundtrips', 'lookup_checks',
                      'alignment_checks', 'node_binding_checks',
                      'operator_outputs_checked']
@@ -180,9 +187,15 @@ def lib_nodes(d, out=None):
 class Space:
   """One built specification with its canonical decision-point objects."""
 
-  def __init__(self, desc):
+  def __init__(self, desc, reuse_rng=None, stats=None):
     self.desc = desc
-    self.spec = S.build(desc)
+    # how the spec was constructed (a harness fact, part of the mechanism keys
+    # of the decision-id monitors)
+    self.construction = 'fresh' if reuse_rng is None else 'reused-objects'
+    if reuse_rng is None:
+      self.spec = S.build(desc)
+    else:
+      self.spec = S.build_reusing(desc, reuse_rng, stats)
     self.all_points = G.all_points(desc)
     self.canon = {}
     for dp in self.spec.decision_points:
@@ -656,8 +669,12 @@ def check_spec_lookups(ctx, sp, case):
   have = [dp.id.path for dp in spec.decision_points]
   want = [p.id for p in sp.all_points]
   if have != want:
-    ctx.violation('decision-ids', 'decision_points',
-                  f'ids {have!r}, reference {want!r}', case)
+    how = '' if sp.construction == 'fresh' else '[' + sp.construction + ']'
+    dup = sorted({x for x in have if have.count(x) > 1})
+    ctx.violation('decision-ids', 'decision_points' + how,
+                  f'ids {have!r}, reference {want!r}'
+                  + (f'; ids shared by several decision points: {dup!r}' if dup else ''),
+                  case)
     return False
   for p in sp.all_points:
     c['spec_lookup_checks'] += 1
@@ -1082,10 +1099,25 @@ def run_case(ctx, i):
   c = ctx.counters
   desc = space_for(ctx)
   case = {'space': S.show(desc)}
-  sp = guarded(lambda: Space(desc))
+  # Half of the specs are built from library objects that were part of another
+  # spec before (candidates / elements taken from a donor spec where they sat
+  # at other positions, as they are or as clones / JSON copies); the reference
+  # is the description either way.
+  reuse_rng = pyrandom.Random(rng.randrange(1 << 30)) if rng.random() < float(
+      ctx.params.get('reuse_share', 0.5)) else None
+  stats = {}
+  sp = guarded(lambda: Space(desc, reuse_rng, stats))
+  for k, n in stats.items():
+    c[k] += n
+  if reuse_rng is not None:
+    case['construction'] = 'candidates and elements taken from other specs: ' + ', '.join(
+        sorted(k for k in stats if k.startswith('reuse:') and 'none' not in k))
   if isinstance(sp, Raised):
-    ctx.violation('unexpected-exception', 'build-spec', repr(sp), case)
+    ctx.violation('unexpected-exception',
+                  'build-spec' if reuse_rng is None else 'build-spec[reused-objects]',
+                  repr(sp), case)
     return
+  c['specs_built:' + sp.construction] += 1
   sp2 = Space(desc)
   c['specs'] += 1
   c['decision_points'] += len(sp.all_points)
